@@ -66,6 +66,10 @@ func (m *Mutex) Unlock() {
 	m.im.Lock()
 	if !m.locked {
 		m.im.Unlock()
+		if s.Poisoned() {
+			// teardown: a task that ended inside Cond.Wait runs its deferred Unlock without holding the lock
+			return
+		}
 		panic("vsync: unlock of unlocked mutex")
 	}
 	m.locked = false
